@@ -220,16 +220,31 @@ def _grid_case(args):
         signal.signal(signal.SIGALRM, old)
 
 
-def confirm_fresh(pid, name, assign, label):
-    """True: the input fails the same clause when replayed alone in a fresh interpreter; False: it does not; None: the replay itself could not be run (the in-run
-    result then stands)"""
+def find_failing_history(pid, name, cases, fl, label, max_pairs=10):
+    """earlier case(s) of the same contract after which `fl` fails in a fresh process: one predecessor (nearest first), else all predecessors (at most 40)"""
+    idx = fl.get("index")
+    if idx is None or not cases:
+        return None
+    target = cases[idx] if idx < len(cases) else fl["assign"]
+    for j in range(idx - 1, max(-1, idx - 1 - max_pairs), -1):
+        if confirm_fresh(pid, name, target, label, history=[cases[j]]):
+            return [cases[j]]
+    pre = cases[max(0, idx - 40):idx]
+    if len(pre) > 1 and confirm_fresh(pid, name, target, label, history=pre):
+        return pre
+    return None
+
+
+def confirm_fresh(pid, name, assign, label, history=()):
+    """True: the input fails the same clause when replayed alone (or, with `history`, after those earlier cases of the same contract) in a fresh interpreter; False: it
+    does not; None: the replay itself could not be run (the in-run result then stands)"""
     import subprocess
     env = dict(os.environ, PYVC_CASE_JSON="1")
     env.pop("PYVC_DEBUG", None)
     try:
-        out = subprocess.run([sys.executable, os.path.join(HERE, "tools", "run_case.py"), pid, name, json.dumps(assign, default=str)],
+        out = subprocess.run([sys.executable, os.path.join(HERE, "tools", "run_case.py"), pid, name, json.dumps(list(history) + [assign] if history else assign, default=str)],
                              capture_output=True, text=True, env=env, cwd=HERE,
-                             timeout=float(os.environ.get("PYVC_CASE_TIMEOUT", "60" if os.environ.get("PYVC_TIER", "quick") == "quick" else "900")) + 30)
+                             timeout=(float(os.environ.get("PYVC_CASE_TIMEOUT", "60" if os.environ.get("PYVC_TIER", "quick") == "quick" else "900")) + 30) * (1 + len(history)))
         line = next((ln for ln in out.stdout.splitlines() if ln.startswith("PYVC_CASE_RESULT ")), None)
         if line is None:
             return None
@@ -250,14 +265,14 @@ def run_grid(cdef, tier, seed, max_fail=300, procs=16):
     global _TIMEOUTS
     import multiprocessing as _mp
     _TIMEOUTS = _mp.get_context("fork").Value("i", 0)
-    if len(cases) >= 12 and procs > 1:
+    if len(cases) >= 4 and procs > 1:
         from concurrent.futures import ProcessPoolExecutor
         import multiprocessing as mp
         with ProcessPoolExecutor(max_workers=procs, mp_context=mp.get_context("fork")) as ex:
             results = list(ex.map(_grid_case, [(cdef.pid, cdef.name, a) for a in cases], chunksize=max(1, len(cases) // (procs * 8))))
     else:
         results = [_grid_case((cdef.pid, cdef.name, a)) for a in cases]
-    for st, failures, used, n_checked in results:
+    for idx_case, (st, failures, used, n_checked) in enumerate(results):
         ev += 1
         if st == "skip":
             skipped += 1
@@ -272,8 +287,8 @@ def run_grid(cdef, tier, seed, max_fail=300, procs=16):
             timeouts.append({"assign": dict(used), "failures": failures})
         if st in ("fail", "error"):
             if len(fails) < max_fail or all(f["failures"] != failures for f in fails):
-                fails.append({"assign": dict(used), "failures": failures})
-    return {"evaluations": ev, "distinct_nontrivial": nontriv, "skipped": skipped, "fails": fails, "samples": samples, "timeouts": timeouts}
+                fails.append({"assign": dict(used), "failures": failures, "index": idx_case})
+    return {"evaluations": ev, "distinct_nontrivial": nontriv, "skipped": skipped, "fails": fails, "samples": samples, "timeouts": timeouts, "cases": cases}
 
 
 def main(argv=None):
@@ -473,6 +488,18 @@ def main(argv=None):
                         tries = [f2 for f2 in st["fails"] if f2 is not fl and lab in f2["failures"]][:2]
                         alt = next((f2 for f2 in tries if confirm_fresh(pid, cd.name, f2["assign"], lab)), None)
                         if alt is None:
+                            # history dependence: does the input fail in a fresh process after ONE earlier case of the same contract (nearest first), or after the
+                            # whole run of cases that preceded it?  Then the pair / sequence is the failing history, and it is replayable.
+                            hist = find_failing_history(pid, cd.name, st.get("cases", []), fl, lab)
+                            if hist is not None:
+                                hclause = clause
+                                path = write_replay(pid, hclause, {"property": pid, "clause": hclause, "contract": cd.full, "kind": "bounded-history",
+                                                                  "functions": cd.funcs, "history": hist, "input": fl["assign"], "native_failures": fl["failures"],
+                                                                  "note": "passes when evaluated alone in a fresh process; fails after the listed earlier case(s) of the same contract in the same process",
+                                                                  "reproduced_on_real_code": True})
+                                violations.append((clause, path, ""))
+                                continue
+                        if alt is None:
                             unconfirmed.add(clause)
                             checker_errors.append(f"{clause}: failed on {fl['assign']} inside the run but not when that input is replayed alone in a fresh process "
                                                   f"(depends on state left by earlier cases): undecided, not a violation")
@@ -556,6 +583,8 @@ def do_replay(pid, cdefs, path):
     if cd is None:
         print(f"CHECKER-ERROR contract {p.get('contract')} not found")
         return 3
+    for h in p.get("history", []):
+        C.run_concrete(cd, h)
     st, failures, ctx = C.run_concrete(cd, p.get("input", {}))
     print(f"replay {p.get('clause')}: status={st} failures={failures} input={ctx.used}")
     if st in ("fail", "error"):
